@@ -304,3 +304,48 @@ theorem finish_unresolved_iff {st : List Str × List Str} {rem : List Str} :
     · exact fun h => h.1
 
 end GIVerif.Shlibs
+
+namespace GIVerif.Shlibs
+open GIVerif.Py
+
+/-! ### line splitting and header lines -/
+
+theorem splitLinesAux_line (line rest acc : Str) (h : ∀ c ∈ line, isLineBreak c = false) :
+    splitLinesAux (line ++ '\n' :: rest) acc = (acc.reverse ++ line) :: splitLinesAux rest [] := by
+  induction line generalizing acc with
+  | nil =>
+    have hb : isLineBreak '\n' = true := by decide
+    cases acc <;> simp [splitLinesAux, hb]
+  | cons c cs ih =>
+    have hc : isLineBreak c = false := h c (by simp)
+    have hcr : c ≠ '\r' := by
+      rintro rfl
+      have : isLineBreak '\r' = true := by decide
+      rw [this] at hc; cases hc
+    have hcs : ∀ c ∈ cs, isLineBreak c = false := fun d hd => h d (by simp [hd])
+    have step : splitLinesAux (c :: (cs ++ '\n' :: rest)) acc =
+        splitLinesAux (cs ++ '\n' :: rest) (c :: acc) := by
+      cases hrest : cs ++ '\n' :: rest with
+      | nil => simp at hrest
+      | cons d ds =>
+        cases acc <;> simp [splitLinesAux, hc, hcr]
+    rw [List.cons_append, step, ih (c :: acc) hcs]
+    simp
+
+theorem splitLines_line (line rest : Str) (h : ∀ c ∈ line, isLineBreak c = false) :
+    splitLines (line ++ '\n' :: rest) = line :: splitLines rest := by
+  unfold splitLines
+  rw [splitLinesAux_line line rest [] h]
+  simp
+
+/-! ### libtool dlname -/
+
+theorem takeWhile_dlname (v rest : Str) (hv : ∀ c ∈ v, isDlnameChar c = true) :
+    (v ++ '\'' :: rest).takeWhile isDlnameChar = v ∧
+    (v ++ '\'' :: rest).dropWhile isDlnameChar = '\'' :: rest := by
+  have hq : isDlnameChar '\'' = false := by decide
+  constructor
+  · rw [List.takeWhile_append_of_pos hv]; simp [List.takeWhile, hq]
+  · rw [List.dropWhile_append_of_pos hv]; simp [List.dropWhile, hq]
+
+end GIVerif.Shlibs
